@@ -58,12 +58,12 @@ func statusText(code int) string {
 // ---- the scripted response
 
 type respSpec struct {
-	terr                        bool
-	status                      int
-	reqset                      bool
-	ct, loc, etag, clen, lmod   *string
-	dav                         []string
-	body                        string
+	terr                      bool
+	status                    int
+	reqset                    bool
+	ct, loc, etag, clen, lmod *string
+	dav                       []string
+	body                      string
 }
 
 type caseIn struct {
@@ -625,11 +625,13 @@ func observe(c caseIn) string {
 	done := make(chan string, 1)
 	go func() { done <- call(c.method, c.path, hc) }()
 	var out string
+	t := time.NewTimer(watchdog)
 	select {
 	case out = <-done:
-	case <-time.After(watchdog):
+	case <-t.C:
 		out = "(hang)"
 	}
+	t.Stop()
 	return hx.L("o", hx.I(int64(atomic.LoadInt32(&hc.calls))), out)
 }
 
